@@ -21,6 +21,7 @@ RULE = (
     "call returned or raised on a distinct (form, argument); all are distinct by construction."
 )
 ASSUMPTIONS = [
+    "accepted input forms: a Days member, set, frozenset, list, tuple, deque (a set or a sequence), positionally or as days=...",
     "odd masks inside 2..254 (stray bit 0) are not judged: the statement neither accepts nor rejects them",
     "'rejected' means the call raises an Exception (class not judged)",
 ]
@@ -51,18 +52,24 @@ def _enc_case(res, form, idx):
 
     D = _days()
     case = {"op": "encode", "form": form, "idx": list(idx)}
+    import collections
+
     if form == "single":
         arg = D[idx[0]]
-    elif form == "set":
+    elif form in ("set", "set-kw"):
         arg = {D[i] for i in idx}
+    elif form == "frozenset":
+        arg = frozenset(D[i] for i in idx)
     elif form == "list":
         arg = [D[i] for i in idx]
+    elif form == "deque":
+        arg = collections.deque(D[i] for i in idx)
     else:
         arg = tuple(D[i] for i in idx)
-    dup = form in ("list", "tuple") and len(set(idx)) != len(idx)
+    dup = form in ("list", "tuple", "deque") and len(set(idx)) != len(idx)
     must_reject = dup or len(idx) == 0
     try:
-        out = tools.weekdays_to_hexadecimal(arg)
+        out = tools.weekdays_to_hexadecimal(days=arg) if form == "set-kw" else tools.weekdays_to_hexadecimal(arg)
         raised = None
     except Exception as exc:  # noqa: BLE001
         out, raised = None, type(exc).__name__
@@ -83,7 +90,7 @@ def _enc_case(res, form, idx):
         res.violation("encode-wrong-mask", case,
                       f"weekdays_to_hexadecimal({form} {list(idx)}) = {out!r}, expected {exp!r}", exp, out)
     else:
-        if form == "set" and arg != {D[i] for i in idx}:
+        if form in ("set", "set-kw") and arg != {D[i] for i in idx}:
             res.violation("encode-mutates-argument", case, f"weekdays_to_hexadecimal changed the set it was given: {arg!r}")
         # decode what was encoded: must give back the same set
         try:
@@ -183,6 +190,9 @@ def run_job(job):
                 _enc_case(res, "set", list(sub))
                 _enc_case(res, "list", list(sub))
                 _enc_case(res, "tuple", list(reversed(sub)))
+                _enc_case(res, "frozenset", list(sub))
+                _enc_case(res, "deque", list(sub))
+                _enc_case(res, "set-kw", list(sub))
         for n in (1, 2, 3):
             for seq in product(range(7), repeat=n):
                 _enc_case(res, "list", list(seq))
